@@ -24,14 +24,18 @@ CORR = "Update/UpdateDefs.v (newfb_state / setdesktop_clients_at / send_client s
 # ---------------------------------------------------------------- generator
 def gen_case(rng, k, quick, kind=None):
     r = rng.random()
-    kind = kind or ("resize" if r < 0.72 else ("richcursor" if r < 0.78 else ("sds" if r < 0.88 else
-                    ("scaled" if r < 0.96 else "f12"))))
+    kind = kind or ("resize" if r < 0.64 else ("enc" if r < 0.72 else ("richcursor" if r < 0.78 else ("sds" if r < 0.88 else
+                    ("scaled" if r < 0.96 else "f12")))))
     if kind == "f12":
         return gen_f12(rng, k)
+    if kind == "enc":
+        # peers decoding non-Raw encodings with the client library, across replacements of the framebuffer
+        return C02.gen_enc_case(rng, k, quick, newfb=True)
     if kind == "scaled":
         return gen_scaled(rng, k, quick)
     W, H = C02.rnd_size(rng, quick)
     bpp = rng.choice([1, 2, 4, 4])
+    bits = C02.STD_BITS[bpp]
     ncl = rng.choice([1, 2, 2, 3])
     L = ["case %d %d %d %d %s" % (k, W, H, bpp, kind)]
     if kind != "richcursor":
@@ -74,9 +78,12 @@ def gen_case(rng, k, quick, kind=None):
                 nw, nh = C02.rnd_size(rng, quick)
             else:
                 nw = max(1, W + rng.choice([-3, -1, 1, 4])); nh = max(1, H + rng.choice([-2, -1, 1, 3]))
-            nb = bpp if (rng.random() < 0.6 or kind == "richcursor" and rng.random() < 0.5) else rng.choice([1, 2, 4])
-            L.append("newfb %d %d %d %d" % (nw, nh, nb, rng.randint(0, 999)))
-            W, H, bpp = nw, nh, nb
+            # same format / another depth / the same depth with other bits per sample (other maxima and shifts)
+            nb, nbits = C02.rnd_format(rng, bpp, bits)
+            if kind == "richcursor" and rng.random() < 0.5:
+                nb, nbits = bpp, bits
+            L.append(C02.newfb_op(nw, nh, nb, rng.randint(0, 999), nbits))
+            W, H, bpp, bits = nw, nh, nb, nbits
         elif r < 0.24:
             ns = rng.choice([0, 1, 1, 2, 3, 16, 255]) if kind == "sds" or rng.random() < 0.3 else 1
             L.append("setdesktopsize %d %d %d %d %d" % (c, rng.choice([W, W + 8, 1, 640]), rng.choice([H, H + 8, 1, 480]),
@@ -122,6 +129,7 @@ def gen_scaled(rng, k, quick):
     (sizes of the scaledScreenNext chain, each client's scaledScreen, what size it is told)"""
     W, H = rng.choice([(8, 6), (12, 8), (16, 12), (9, 7), (20, 10)])
     bpp = rng.choice([1, 2, 4])
+    bits = C02.STD_BITS[bpp]
     ncl = rng.choice([1, 2, 3])
     L = ["case %d %d %d %d scaled" % (k, W, H, bpp), "setcursor 0"]
     for c in range(ncl):
@@ -165,9 +173,9 @@ def gen_scaled(rng, k, quick):
                 cansend[c] = False
         elif r < 0.65:
             nw, nh = rng.choice([(W, H), (W * 2, H * 2), (max(1, W - 3), max(1, H - 2)), C02.rnd_size(rng, quick)])
-            nb = bpp if rng.random() < 0.7 else rng.choice([1, 2, 4])
-            L.append("newfb %d %d %d %d" % (nw, nh, nb, rng.randint(0, 999)))
-            W, H, bpp = nw, nh, nb
+            nb, nbits = C02.rnd_format(rng, bpp, bits)
+            L.append(C02.newfb_op(nw, nh, nb, rng.randint(0, 999), nbits))
+            W, H, bpp, bits = nw, nh, nb, nbits
             for q in range(ncl):
                 if modes[q] == "resize":
                     cansend[q] = True
@@ -216,6 +224,13 @@ def boundary_cases(k0):
         add("resize", 12, 8, 4, pre(enc) + ["req 0 1 0 0 12 8", "newfb 20 10 2 9", "tick 0", "req 0 0 0 0 20 10", "tick 0",
             "draw 15 5 20 10 3", "req 0 1 0 0 20 10", "tick 0"])
         add("resize", 12, 8, 1, pre(enc) + ["newfb 12 8 4 9", "req 0 1 0 0 12 8", "tick 0", "req 0 1 0 0 12 8", "tick 0"])
+        # same size, same depth, other bits per sample: 32 bpp 8 -> 10 bits -> 5 bits, 16 bpp 5 -> 4 -> 5 bits
+        add("resize", 12, 8, 4, pre(enc) + ["draw 0 0 12 8 3", "req 0 1 0 0 12 8", "tick 0", "newfb 12 8 4 9 10", "tick 0",
+            "req 0 1 0 0 12 8", "tick 0", "draw 2 2 9 7 4", "req 0 1 0 0 12 8", "tick 0", "newfb 12 8 4 11 5", "tick 0",
+            "req 0 1 0 0 12 8", "tick 0", "newfb 12 8 4 12", "tick 0", "req 0 1 0 0 12 8", "tick 0"])
+        add("resize", 12, 8, 2, pre(enc) + ["draw 0 0 12 8 3", "req 0 1 0 0 12 8", "tick 0", "newfb 12 8 2 9 4", "tick 0",
+            "req 0 1 0 0 12 8", "tick 0", "draw 2 2 9 7 4", "req 0 1 0 0 12 8", "tick 0", "newfb 12 8 2 11", "tick 0",
+            "req 0 1 0 0 12 8", "tick 0", "tick 0"])
         # stale request entirely outside the new screen
         add("resize", 12, 8, 4, pre(enc) + ["req 0 1 8 5 4 3", "newfb 6 4 4 1", "tick 0", "tick 0", "req 0 1 0 0 6 4", "tick 0", "tick 0"])
     # SetDesktopSize: refused, accepted (then the application resizes), zero screens, two clients
@@ -225,6 +240,13 @@ def boundary_cases(k0):
         "setdesktopsize 0 20 10 1 0", "req 0 1 0 0 12 8", "tick 0", "newfb 20 10 4 5",
         "req 0 1 0 0 12 8", "req 1 1 0 0 12 8", "tick 0", "tick 1", "req 0 0 0 0 20 10", "tick 0", "tick 0",
         "setdesktopsize 1 5 5 0 3", "setdesktopsize 1 5 5 255 2", "req 1 1 0 0 20 10", "tick 1", "tick 1"])
+    # a refused request, then another client's accepted request before the refusal went out; two accepted requests
+    add("sds", 12, 8, 4, ["setcursor 0", "addclient", "addclient", "setenc 0 0 1 0 1", "setenc 1 0 1 0 1",
+        "req 0 0 0 0 12 8", "tick 0", "req 1 0 0 0 12 8", "tick 1", "tick 0", "tick 1",
+        "setdesktopsize 0 20 10 1 3", "setdesktopsize 1 20 10 1 0", "req 0 1 0 0 12 8", "tick 0", "tick 1", "tick 0"])
+    add("sds", 12, 8, 4, ["setcursor 0", "addclient", "addclient", "setenc 0 0 1 0 1", "setenc 1 0 1 0 1",
+        "req 0 0 0 0 12 8", "tick 0", "req 1 0 0 0 12 8", "tick 1", "tick 0", "tick 1",
+        "setdesktopsize 0 20 10 1 0", "setdesktopsize 1 20 10 1 0", "newfb 20 10 4 5", "tick 0", "tick 1", "tick 0", "tick 1"])
     # F12 inside the model: SetScale 2, told 6x4; new framebuffer 24x16: told 6x4 again
     add("scaled", 12, 8, 4, ["setcursor 0", "addclient", "setenc 0 0 1 1 0", "setscale 0 2", "send 0", "newfb 24 16 4 7", "send 0"])
     add("scaled", 12, 8, 4, ["setcursor 0", "addclient", "addclient", "setenc 0 0 1 0 0", "setenc 1 0 1 0 1", "setscale 0 2",
@@ -298,6 +320,7 @@ def oracle_case(case, impl_lines, crash):
     W, H = int(case[0].split()[2]), int(case[0].split()[3])
     prev = None
     factor = {}        # client -> scale factor it asked for last
+    owed = {}          # client -> status the application returned for its own, not yet answered SetDesktopSize
     for i, opline in enumerate(ops):
         if i >= len(impl_lines):
             break
@@ -336,6 +359,23 @@ def oracle_case(case, impl_lines, crash):
                 if c["f"][4] == "1" and c["f"][6] != "1":
                     return ("after '%s' client %d supports NewFBSize but no size message is pending" % (opline, ci),
                             {"what": "newfb-notpending", "op": p[0]})
+        # f. (history level, from the script and the wire only) a client's own SetDesktopSize is answered: the
+        #    next ExtendedDesktopSize rectangle it receives says "requested by this client" with the status the
+        #    application returned - whatever other clients did in between
+        for ci, msgs in o["wire"].items():
+            for (n, rects) in msgs:
+                for (k, v, _) in rects:
+                    if k == "E" and ci in owed:
+                        want = owed.pop(ci)
+                        if (v[0], v[1]) != (1, want):
+                            return ("client %d asked for a desktop size change and the application answered %d; the next "
+                                    "ExtendedDesktopSize message it receives (after '%s') carries reason %d / status %d "
+                                    "instead of reason 1 (this client) / status %d: its request is never answered"
+                                    % (ci, want, opline, v[0], v[1], want), {"what": "sds-answer-lost", "op": p[0]})
+        if p[0] == "setdesktopsize" and int(p[4]) != 0 and int(p[1]) < len(o["clients"]):
+            owed[int(p[1])] = int(p[5])
+        if p[0] == "close":
+            owed.pop(int(p[1]), None)
         # c. the size pseudo-rectangle comes first, alone, with the current size (+ reason/status)
         for ci, msgs in o["wire"].items():
             if prev is None or ci >= len(prev["clients"]):
@@ -395,7 +435,7 @@ def oracle_case(case, impl_lines, crash):
                             {"what": "sds-noreply", "op": p[0]})
                 if hr == 0:
                     for cj, c2 in enumerate(o["clients"]):
-                        if cj != ci and not c2["closed"] and c2["q"][0] != 2:
+                        if cj != ci and not c2["closed"] and c2["q"][0] != 2 and cj not in owed:
                             return ("after the accepted '%s' client %d does not know another client asked (reason %d)"
                                     % (opline, cj, c2["q"][0]), {"what": "sds-other", "op": p[0]})
         prev = o
@@ -404,7 +444,7 @@ def oracle_case(case, impl_lines, crash):
 
 # ---------------------------------------------------------------- the check
 def build(ctx):
-    cexe = vlib.build_harness("vdrv_update", ["vdrv_update.c"], wraps=C02.HARNESS_WRAPS)
+    cexe = vlib.build_harness("vdrv_update", ["vdrv_update.c"], wraps=C02.HARNESS_WRAPS, client=True)
     proof_ok = vlib.prove(ctx, PROP_FILE, [EXTRACT])
     mexe = vlib.build_ocaml(PID, "driver_C16.ml", EXTRACT)
     return cexe, mexe, proof_ok
@@ -424,6 +464,51 @@ def diff_case(case, il, ml):
     return _orig_diff(case, il, ml)
 
 
+LEAK_ENV = {"ASAN_OPTIONS": "detect_leaks=1:abort_on_error=0:allocator_may_return_null=1"}
+
+
+def leak_check(cexe, case):
+    """one case in its own process with LeakSanitizer on: memory the library allocated while serving the case
+    and never released (the harness tears everything down: rfbScreenCleanup, every client gone).
+    -> None or (message, features)"""
+    rc, out, err = vlib.run_driver(cexe, "\n".join(case) + "\n", timeout=120, env=LEAK_ENV)
+    if "LeakSanitizer: detected memory leaks" not in err:
+        return None
+    for blk in err.split("\n\n"):
+        m = re.search(r"(Direct leak of \d+ byte\(s\) in \d+ object\(s\))", blk)
+        if not m:
+            continue
+        fr = re.findall(r"#\d+ 0x[0-9a-f]+ in (\S+) (\S+)", blk)
+        libfr = [(f, w) for f, w in fr if "/src/libvncserver/" in w or "/src/common/" in w]
+        if not libfr:
+            continue
+        via = next((f for f, w in libfr[1:] if f != libfr[0][0]), "?")
+        return ("memory leak: %s allocated by %s (%s), called from %s, is never released although every client "
+                "is gone and the screen is cleaned up" % (m.group(1), libfr[0][0], libfr[0][1].split("/")[-1], via),
+                {"what": "leak", "where": libfr[0][0], "via": via})
+    return None
+
+
+def leak_pass(ctx, cexe, cases):
+    from concurrent.futures import ThreadPoolExecutor
+    sel = cases[:40] + [c for c in cases[40:] if C02.case_kind(c) in ("sds", "resize", "scaled", "richcursor")][:80]
+    with ThreadPoolExecutor(max_workers=8) as ex:
+        res = list(ex.map(lambda c: leak_check(cexe, c), sel))
+    seen = set()
+    for c, r in zip(sel, res):
+        if r is None or (r[1]["where"], r[1]["via"]) in seen:
+            continue
+        seen.add((r[1]["where"], r[1]["via"]))
+        want = (r[1]["where"], r[1]["via"])
+        def pred(lines):
+            q = leak_check(cexe, lines)
+            return q is not None and (q[1]["where"], q[1]["via"]) == want
+        small = C02.shrink_case(c, pred, max_tests=60)
+        q = leak_check(cexe, small) or r
+        ctx.violation(q[0], q[1], "script:\n" + "\n".join(small) + "\n\n(run with ASAN_OPTIONS=detect_leaks=1)\n")
+    ctx.coverage["leak_checked_cases"] = len(sel)
+
+
 def check(ctx):
     cexe, mexe, proof_ok = build(ctx)
     cases = gen_cases(ctx)
@@ -432,6 +517,7 @@ def check(ctx):
         C02.evaluate(ctx, cases, cexe, mexe, proof_ok, PID, oracle_case, "", CORR)
     finally:
         C02.diff_case = _orig_diff
+    leak_pass(ctx, cexe, cases)
     ctx.assumptions += [
         "the application installs a framebuffer of the announced size and frees the old one only after rfbNewFramebuffer returns",
         "a client without NewFBSize support learns the new size out of band (its picture is resized by the harness)",
@@ -447,6 +533,12 @@ def replay(ctx, path):
         C02.build = build
         if C02.replay_common(ctx, path, oracle_case, CORR) is None:
             return check(ctx)
+        if not ctx.violations:
+            txt = open(path).read()
+            lines = [l for l in txt.split("script:\n", 1)[1].split("\n\n", 1)[0].split("\n") if l.strip()]
+            e = leak_check(build(ctx)[0], lines)
+            if e:
+                ctx.violation(e[0], e[1], "script:\n" + "\n".join(lines) + "\n")
     finally:
         C02.build = saved[0]
         C02.diff_case = _orig_diff
